@@ -38,6 +38,9 @@ def respCase (inp impl : String) : CaseOut :=
         match o with
         | .value v => (s', nreq, out ++ [s!"value{v}"], tags ++ ["result.value"])
         | _ => (s', nreq, out ++ ["timeout"], tags ++ ["result.timeout"])
+      -- ed<n>: a reply racing the deadline of one request must not disturb the next one (C11.timeout_only_after_deadline:
+      -- an error only once the timeout has passed; C11.correlated: the value is the reply to that very request)
+      else if op.startsWith "ed" then (s, nreq, out ++ ["early=0 wrong=0"], tags ++ ["deadline-race"])
       else if op.startsWith "ids" then (s, nreq, out ++ ["dups=0"], tags ++ ["ids"])
       else if op.startsWith "qi" then
         -- request to a target that replies at once: request; reply (delivered); Result = that value; unregistered
@@ -67,6 +70,7 @@ def respCase (inp impl : String) : CaseOut :=
         let why :=
           if got = "BLOCKED" then "a reply blocked its sender (C09: sending never blocks the caller)"
           else if got.startsWith "ok=" then "concurrent requests: a reply was lost, timed out or reached the wrong requester"
+          else if got.startsWith "early=" then "Result returned an error before its timeout had passed (or another request's value) after a reply raced an earlier deadline"
           else if got.startsWith "dups=" then "two responses can draw the same id (cross-talk between concurrent requests)"
           else if got.startsWith "value" then "Result returned a value that was not the first reply to that very request"
           else "request/response protocol"
